@@ -3,7 +3,7 @@
    service and method is unchanged in the linked descriptors. *)
 From Coq Require Import String List NArith Bool Lia.
 From J5V.lib Require Import Outcome Corr Strcase.
-From J5V.model Require Import J5sAst Desc J5sWalk J5sLink J5sConvert J5sContract J5sValid J5sEdit.
+From J5V.model Require Import J5sAst Desc J5sWalk J5sLink J5sConvert J5sContract J5sValid J5sEdit J5sCorr.
 From J5V.proofs Require Import J5sProofs J5sContractProofs J5sLinkProofs J5sResolveProofs J5sExtProofs J5sTotalProofs
      J5sCompileProofs J5sLinkExtProofs J5sNameProofs J5sNamedProofs J5sPkgExtProofs.
 Import ListNotations.
@@ -122,11 +122,11 @@ Proof.
 Qed.
 
 Lemma convert_package_inv bd pkg D :
-  (forall x, In x bd -> bfile_pkg x <> []) -> valid_bundle snake camel bd = true ->
+  (forall x, In x bd -> bfile_pkg x <> []) -> valid_bundle snake camel screaming bd = true ->
   convert_package snake camel screaming bd pkg = Ok D -> forall df, In df D -> file_inv df.
 Proof.
   unfold convert_package. intros Hne Hv H. destruct (pkg_files bd pkg) as [|x r] eqn:E; [discriminate|].
-  eapply cv_files_inv; [exact Hne| |exact H]. intros f Hf. apply (valid_files snake camel); [exact Hv|].
+  eapply cv_files_inv; [exact Hne| |exact H]. intros f Hf. apply (valid_files snake camel screaming); [exact Hv|].
   rewrite <- E in Hf. apply in_pkg_files_iff in Hf. destruct Hf. assumption.
 Qed.
 
@@ -239,8 +239,8 @@ Theorem compile_package_ext bd f f' pkg D :
   file_src_ext f f' ->
   (forall x, In x bd -> bfile_path x = j5s_path f -> x = BJ f) ->
   (forall x, In x bd -> bfile_pkg x <> []) ->
-  valid_bundle snake camel bd = true ->
-  valid_bundle snake camel (map (replace_file f') bd) = true ->
+  valid_bundle snake camel screaming bd = true ->
+  valid_bundle snake camel screaming (map (replace_file f') bd) = true ->
   (exists x, In x bd /\ bfile_pkg x = pkg) ->
   compile_package snake camel screaming bd pkg = Ok D ->
   exists D', compile_package snake camel screaming (map (replace_file f') bd) pkg = Ok D' /\ files_ext D D'.
@@ -254,13 +254,11 @@ Proof.
   { exists (replace_file f' x0). split; [apply in_map; exact Hx0|].
     rewrite (proj2 (g_path bd f f' Hext Honly x0 Hx0)). exact Hp0. }
   destruct (compile_total snake camel screaming bd' pkg Hv' Hex') as [D' HD']. exists D'. split; [exact HD'|].
-  unfold compile_package in H, HD'.
-  apply obind_ok in H. destruct H as (fs & Efs & H). apply obind_ok in H. destruct H as (l & El & H).
-  apply obind_ok in H. destruct H as (u & _ & H). inversion H. subst l. clear H.
-  apply obind_ok in HD'. destruct HD' as (fs' & Efs' & HD'). apply obind_ok in HD'. destruct HD' as (l' & El' & HD').
-  apply obind_ok in HD'. destruct HD' as (u' & _ & HD'). inversion HD'. subst l'. clear HD'.
+  apply (compile_package_inv snake camel screaming) in H. destruct H as (fs & Efs & _ & El & _).
+  apply (compile_package_inv snake camel screaming) in HD'. destruct HD' as (fs' & Efs' & _ & El' & _).
   assert (Hdist : forall p l, pkg_exports camel bd' p = Some l -> J5sValid.distinct (map tr_name l) = true).
   { intros p l Hl. unfold valid_bundle in Hv'. apply andb_true_iff in Hv'. destruct Hv' as [Hv' _].
+    apply andb_true_iff in Hv'. destruct Hv' as [Hv' _].
     apply andb_true_iff in Hv'. destruct Hv' as [_ Hv']. rewrite forallb_forall in Hv'.
     unfold pkg_exports in Hl. destruct (pkg_files bd' p) as [|y r] eqn:E; [discriminate|].
     assert (Hy : In y bd') by (assert (In y (pkg_files bd' p)) by (rewrite E; left; reflexivity); apply in_pkg_files_iff in H; destruct H; assumption).
@@ -280,8 +278,8 @@ Theorem compile_ext_strcase bd f f' pkg D :
   file_src_ext f f' ->
   (forall x, In x bd -> bfile_path x = j5s_path f -> x = BJ f) ->
   (forall x, In x bd -> bfile_pkg x <> []) ->
-  valid_bundle to_snake to_camel bd = true ->
-  valid_bundle to_snake to_camel (map (replace_file f') bd) = true ->
+  valid_bundle to_snake to_camel to_screaming_snake bd = true ->
+  valid_bundle to_snake to_camel to_screaming_snake (map (replace_file f') bd) = true ->
   (exists x, In x bd /\ bfile_pkg x = pkg) ->
   compile_package to_snake to_camel to_screaming_snake bd pkg = Ok D ->
   exists D', compile_package to_snake to_camel to_screaming_snake (map (replace_file f') bd) pkg = Ok D' /\ files_ext D D'.
@@ -387,9 +385,6 @@ Proof.
   constructor; [exact Hn|apply IH; exact Hd].
 Qed.
 
-Definition valid (bd : bundle) : bool := valid_bundle to_snake to_camel bd.
-Definition compile (bd : bundle) (pkg : str) : outcome (list dfile) :=
-  compile_package to_snake to_camel to_screaming_snake bd pkg.
 
 (* every edit of the sequence addresses a source file, is applicable, and leaves the bundle valid *)
 Fixpoint seq_ok (bd : bundle) (es : list edit) : Prop :=
@@ -434,4 +429,39 @@ Proof.
     + exists (replace_file (edit_file e j) x0). split; [apply in_map; exact Hx0|].
       rewrite (proj2 (g_path bd j _ Hext Honly x0 Hx0)). exact Hp0.
     + exists D'. split; [exact HD'|eapply files_ext_trans; eassumption].
+Qed.
+
+(* ------------------------------------------------------------------ a concrete sequence of deep edits *)
+(* object Foo { field x array { items object { field kind enum { A } } }  object Sub { field q string } }
+   + a field inside the inline object of the array items, an option of the inline enum inside
+   it, a field of the nested declaration Sub, a new nested enum of Foo *)
+Definition w_deep : bundle :=
+  [BJ (mkJfile [b "foo"; b "v1"] (b "a") []
+     [EObject (b "Foo")
+        (mkprops [Property (b "x") false false
+                    (FArray (FObjInline [] (mkprops [Property (b "kind") false false (FEnumInline (mkEnum [] [] [b "A"]))])))])
+        (mknesteds [NObject (b "Sub") (mkprops [Property (b "q") false false (FScalar SString)]) NNil])])].
+
+Definition w_deep_edits : list edit :=
+  [EAppendIn 0 0 AtDecl [SInline 0] (AField (Property (b "deep") false false (FScalar SString)));
+   EAppendIn 0 0 AtDecl [SInline 0; SInline 0] (AOption (b "B"));
+   EAppendIn 0 0 AtDecl [SNested 0] (AField (Property (b "r") false false (FScalar SBool)));
+   EAppendIn 0 0 AtDecl [] (ASub (NEnum (mkEnum (b "Extra") [] [b "ONE"])))].
+
+Lemma deep_edits_preserve :
+  exists D D', compile w_deep (b "foo.v1") = Ok D /\
+               compile (apply_edits w_deep w_deep_edits) (b "foo.v1") = Ok D' /\
+               files_ext D D' /\ D' <> D.
+Proof.
+  assert (Hc : exists D, compile w_deep (b "foo.v1") = Ok D) by (eexists; vm_compute; reflexivity).
+  destruct Hc as [D Hc].
+  assert (Hseq : seq_ok w_deep w_deep_edits).
+  { cbn [seq_ok w_deep_edits].
+    repeat (split; [eexists; split; [reflexivity|exact I]|split; [vm_compute; reflexivity|]]). exact I. }
+  destruct (c13_full w_deep_edits w_deep (b "foo.v1") D) as (D' & Hc' & Hext); try assumption.
+  - vm_compute. reflexivity.
+  - intros x [<-|[]]. vm_compute. discriminate.
+  - eexists. split; [left; reflexivity|vm_compute; reflexivity].
+  - exists D, D'. repeat split; try assumption.
+    intros ->. vm_compute in Hc, Hc'. pose proof (eq_trans Hc (eq_sym Hc')) as E. discriminate E.
 Qed.
